@@ -160,6 +160,40 @@ impl<'a, A: Array> IntoIterator for &'a SmallVec<A> {
         self.iter()
     }
 }
+/// By-value iterator (insertion order).
+pub struct IntoIter<A: Array> {
+    v: SmallVec<A>,
+    i: usize,
+}
+impl<A: Array> Iterator for IntoIter<A> {
+    type Item = A::Item;
+    fn next(&mut self) -> Option<A::Item> {
+        if self.i >= CAP {
+            return None;
+        }
+        let mut r = None;
+        let mut k = 0;
+        while k < CAP {
+            if k == self.i {
+                r = self.v.slots[k].take();
+            }
+            k += 1;
+        }
+        if r.is_some() {
+            self.i += 1;
+        } else {
+            self.i = CAP;
+        }
+        r
+    }
+}
+impl<A: Array> IntoIterator for SmallVec<A> {
+    type Item = A::Item;
+    type IntoIter = IntoIter<A>;
+    fn into_iter(self) -> IntoIter<A> {
+        IntoIter { v: self, i: 0 }
+    }
+}
 impl<A: Array> Clone for SmallVec<A>
 where
     A::Item: Clone,
